@@ -148,7 +148,7 @@ def main(run):
         run.count("%s diag=%d" % (kind, d))
         _oracle(run, info, om, tet_c, res)
 
-    ncase = 200 if thorough else 14
+    ncase = 1200 if thorough else 14
     for c in range(ncase):
         d = c % 4
         mesh = [rng.randint(2, 4)] * 3  # isotropic: the test lattices keep their shortest main diagonal
@@ -184,7 +184,7 @@ def main(run):
 
     # designated arrays: every ordering of four distinct values in every tetrahedron slot
     perms = list(itertools.permutations(range(4)))
-    nd = 24 if thorough else 4
+    nd = 96 if thorough else 4
     for c in range(nd):
         d = c % 4
         base = sorted(rng.sample(range(1, 40), 4))
@@ -209,6 +209,9 @@ def main(run):
     # ------------------------------------------------------------------ end to end through the Phonopy API
     _end_to_end(run, rng, thorough)
     _anisotropic(run, rng, thorough, lines, meta, allrel)
+    _smearing(run, rng, thorough, lines, meta)
+    _mesh_lookup(run, rng, thorough, lines, meta, allrel)
+    _grid_order(run, rng, thorough, lines, meta)
 
     # ------------------------------------------------------------------ compare with the models
     if not translated:
@@ -236,6 +239,42 @@ def main(run):
             if s != sorted(v) or s[int(t[0])] != v[0]:
                 run.broke("correspondence", "sort_omegas model: %s -> %s" % (v, line))
             ncmp += 1
+            continue
+        if kind == "nbr":
+            ncmp += 1
+            run.count("neighbour lookups (C and Python) vs model", section="correspondence")
+            mv = [int(t) for t in line.split()] if line != "bad-op" else None
+            for lang, got in impl.items():
+                if mv != got:
+                    run.broke("correspondence", "tetrahedron vertex lookup (%s) differs from the model" % lang, dict(info, impl=got, model=mv))
+            continue
+        if kind == "gp2ir":
+            ncmp += 1
+            run.count("gp2ir tables vs model", section="correspondence")
+            parts = [[int(t) for t in p_.split()] for p_ in line.split("|")] if line != "bad-op" else None
+            if parts is None or len(parts) != 4 or parts[0] != impl["gp_ir_index"] or parts[3] != impl["gp_ir_index"] or parts[1] != impl["ir"] or parts[2] != impl["weights"]:
+                run.broke("correspondence", "TetrahedronMesh._prepare / extract_ir_grid_points differ from the gp2ir model", dict(info, impl=impl, model=line[:300]))
+            continue
+        if kind == "smear":
+            ncmp += 1
+            run.count("smearing function values", section="correspondence")
+            import struct
+
+            mv = np.array([struct.unpack("<d", struct.pack("<Q", int(t)))[0] for t in line.split()]) if line != "bad-op" else None
+            if mv is None or mv.shape != impl.shape or (np.abs(mv - impl) > 8e-15 * np.maximum(np.abs(impl), 1e-300) + 1e-300).any():
+                run.broke("correspondence", "%s smearing function differs from the model" % info["function"], dict(info, impl=impl.tolist(), model=None if mv is None else mv.tolist()))
+            continue
+        if kind == "fpts":
+            ncmp += 1
+            run.count("frequency points", section="correspondence")
+            if line == "bad-op":
+                run.broke("correspondence", "frequency-point model rejected the request", info)
+                continue
+            a, b = line.split("|")
+            pts = np.array([float(Fraction(t)) for t in b.split()])
+            if pts.shape != impl.shape or np.abs(pts - impl).max() > 1e-12 * max(1.0, np.abs(impl).max()):
+                run.broke("correspondence", "frequency points differ from the model: %d points [%.6g, %.6g], model %d points" % (
+                    len(impl), impl[0], impl[-1], len(pts)), info)
             continue
         if kind == "diag":
             ncmp += 1
@@ -436,9 +475,209 @@ def _anisotropic(run, rng, thorough, lines, meta, allrel):
         meta.append(("diag", info, which))
 
 
+def _smearing(run, rng, thorough, lines, meta):
+    """smearing functions, frequency-point grid, and the quadrature of the smearing DOS with an explicit remainder bound"""
+    import math
+
+    from phonopy.phonon.dos import CauchyDistribution, NormalDistribution, TotalDos
+
+    for _ in range(12 if thorough else 4):
+        sg = rng.choice([rng.randint(1, 40) / 32.0, rng.uniform(0.01, 3.0)])
+        xs = np.array([rng.uniform(-6, 6) * sg for _ in range(10)] + [0.0, sg, -3 * sg, 30 * sg])
+        for nm, cls in (("normal", NormalDistribution), ("cauchy", CauchyDistribution)):
+            lines.append("smear %s %s %d %s" % (nm, q(float(sg)), len(xs), _rats(xs)))
+            meta.append(("smear", dict(function=nm, sigma=float(sg), x=xs.tolist()), np.array(cls(sg).calc(xs), dtype=float)))
+    name = rng.choice(["cscl", "nacl_prim", "hcp"])
+    cell, cen = gen.make_cell(name)
+    ph = gen.make_phonopy(cell, np.diag([2, 2, 2]), pmat="P")
+    ph.force_constants = gen.pair_fc(ph.supercell, min(0.9 * gen.min_lattice_vector(ph.supercell.cell), 5.0))
+    ph.run_mesh([rng.randint(2, 4)] * 3, is_mesh_symmetry=rng.random() < 0.5)
+    fr = np.array(ph.get_mesh_dict()["frequencies"])
+    w = np.array(ph.get_mesh_dict()["weights"], dtype=float)
+    lo, hi = float(fr.min()), float(fr.max())
+    nb = fr.shape[1]
+    opt = lambda v: "none" if v is None else q(float(v))
+    for _ in range(16 if thorough else 6):
+        sg = rng.choice([None, rng.randint(1, 16) / 32.0])
+        fmin = rng.choice([None, lo - rng.randint(0, 8) / 4.0, rng.randint(-4, 4) / 2.0])
+        fmax = rng.choice([None, hi + rng.randint(1, 8) / 4.0])
+        pitch = rng.choice([None, rng.randint(1, 16) / 64.0, rng.uniform(0.02, 0.3)])
+        tet = rng.random() < 0.3 and sg is None
+        ph.run_total_dos(sigma=sg, freq_min=fmin, freq_max=fmax, freq_pitch=pitch, use_tetrahedron_method=tet)
+        fp = np.array(ph.get_total_dos_dict()["frequency_points"], dtype=float)
+        lines.append("fpts %s %s %s %s %s %s" % (q(lo), q(hi), opt(sg), opt(fmin), opt(fmax), opt(pitch)))
+        meta.append(("fpts", dict(cell=name, sigma=sg, freq_min=fmin, freq_max=fmax, freq_pitch=pitch, tetrahedron=tet), fp))
+        run.case(("fpts", name, sg, fmin, fmax, pitch), nontrivial=True)
+    # quadrature of the smearing DOS on the code's own grid: |trapezoid - bands| <= tail mass + (b-a) h^2/12 max|D''|
+    for fname in ("Normal", "Cauchy"):
+        sg = rng.randint(4, 12) / 32.0
+        td = TotalDos(ph.mesh, sigma=sg)
+        td.set_smearing_function(fname)
+        td.set_draw_area(freq_pitch=sg / 8.0)
+        td.run()
+        fp, dos = np.array(td.frequency_points), np.array(td.dos)
+        a, b, h = float(fp[0]), float(fp[-1]), float(fp[1] - fp[0])
+        integ = float(np.sum((dos[1:] + dos[:-1]) / 2 * np.diff(fp)))
+        wn = (w / w.sum())[:, None]
+        if fname == "Normal":
+            tail = float((wn * 0.5 * (np.vectorize(math.erfc)((fr - a) / (sg * math.sqrt(2))) + np.vectorize(math.erfc)((b - fr) / (sg * math.sqrt(2))))).sum())
+            d2max = 1.0 / (sg ** 3 * math.sqrt(2 * math.pi))
+        else:
+            tail = float((wn * (1.0 - (np.arctan((b - fr) / sg) + np.arctan((fr - a) / sg)) / math.pi)).sum())
+            d2max = 2.0 / (math.pi * sg ** 3)
+        bound = tail + (b - a) * h * h / 12.0 * nb * d2max
+        run.count("oracle-smearing-quadrature-%s" % fname, section="oracle")
+        run.cov["oracle"]["smearing quadrature remainder bound (%s)" % fname] = "%.3g (observed %.3g)" % (bound, abs(integ - nb))
+        if (dos < 0).any() or abs(integ - nb) > bound * (1 + 1e-9) + 1e-10:
+            run.violation("TotalDos.run", "smearing-normalisation-" + fname.lower(),
+                          "trapezoid integral of the smearing DOS is %.10g, bands %d, remainder bound %.3g" % (integ, nb, bound),
+                          dict(cell=name, sigma=sg, function=fname, freq_pitch=h))
+
+
+def _mesh_lookup(run, rng, thorough, lines, meta, allrel):
+    """neighbour lookup with periodic wrap (C kernel and Python), the ir lookup table, and the two DOS code paths"""
+    from phonopy.phonon.dos import TotalDos
+    from phonopy.phonon.tetrahedron_mesh import TetrahedronMesh, get_tetrahedra_frequencies
+    from phonopy.structure.grid_points import GridPoints
+
+    for _ in range(80 if thorough else 6):
+        mesh = np.array([rng.randint(1, 5) for _ in range(3)], dtype="int64")
+        N = int(np.prod(mesh))
+        # addresses as GridPoints hands them over (reduced to (-m/2, m/2], or relocated), plus far-away ones
+        gp = GridPoints(mesh, np.eye(3), fit_in_BZ=rng.random() < 0.5, is_mesh_symmetry=False, is_time_reversal=False)
+        ga = np.array(gp.grid_address, dtype="int64", order="C")
+        if rng.random() < 0.3:
+            ga = ga + mesh * np.array([rng.randint(-2, 2) for _ in range(3)])
+            ga = np.array(ga, dtype="int64", order="C")
+        d = rng.randint(0, 3)
+        g = rng.randint(0, N - 1)
+        ident = np.arange(N, dtype="int64")
+        freqs = np.arange(N, dtype="double").reshape(N, 1)
+        got = {}
+        for lang in ("C", "Py"):
+            tf = get_tetrahedra_frequencies(g, mesh, ga, np.array(allrel[d], dtype="int64", order="C"), ident, freqs,
+                                            grid_order=[1, int(mesh[0]), int(mesh[0] * mesh[1])], lang=lang)
+            got[lang] = [int(round(v)) for v in np.array(tf)[0].ravel()]
+            if min(got[lang]) < 0 or max(got[lang]) >= N:
+                run.violation("get_tetrahedra_frequencies", "vertex-out-of-range-" + lang, "tetrahedron vertex index outside the mesh",
+                              dict(mesh=mesh.tolist(), address=ga[g].tolist(), diagonal=d))
+        lines.append("nbr %d %d %d %d %d %d %d" % (mesh[0], mesh[1], mesh[2], ga[g][0], ga[g][1], ga[g][2], d))
+        meta.append(("nbr", dict(mesh=mesh.tolist(), address=ga[g].tolist(), diagonal=d), got))
+        run.case(("nbr", tuple(mesh.tolist()), tuple(ga[g].tolist()), d), nontrivial=bool((ga[g] + allrel[d].reshape(-1, 3)).min() < 0))
+    # ir lookup on real mapping tables
+    names = ["cscl", "hcp", "nacl_prim", "bct", "rhombo", "mono_P"]
+    for _ in range(24 if thorough else 3):
+        name = rng.choice(names)
+        cell, cen = gen.make_cell(name)
+        ph = gen.make_phonopy(cell, np.eye(3, dtype=int), pmat="P")
+        mesh = [rng.randint(2, 4)] * 3 if rng.random() < 0.6 else [rng.randint(1, 4) for _ in range(3)]
+        gp = GridPoints(mesh, np.linalg.inv(ph.primitive.cell), rotations=ph.primitive_symmetry.pointgroup_operations,
+                        is_gamma_center=rng.random() < 0.5, is_time_reversal=rng.random() < 0.7)
+        tab = np.array(gp.grid_mapping_table, dtype="int64")
+        nir = len(gp.ir_grid_points)
+        thm = TetrahedronMesh(ph.primitive, np.zeros((nir, 1)), mesh, np.array(gp.grid_address, dtype="int64"), tab, gp.ir_grid_points)
+        lines.append("gp2ir %d %s" % (len(tab), " ".join(str(int(v)) for v in tab)))
+        meta.append(("gp2ir", dict(cell=name, mesh=mesh), dict(gp_ir_index=[int(v) for v in thm._gp_ir_index], ir=[int(v) for v in gp.ir_grid_points],
+                                                               weights=[int(v) for v in gp.weights])))
+    # the compiled kernel (its own gp2ir loop) and the TetrahedronMesh loop give the same total DOS on a reduced mesh
+    name = rng.choice(["cscl", "nacl_prim", "hcp"])
+    cell, cen = gen.make_cell(name)
+    ph = gen.make_phonopy(cell, np.diag([2, 2, 2]), pmat="P")
+    ph.force_constants = gen.pair_fc(ph.supercell, min(0.9 * gen.min_lattice_vector(ph.supercell.cell), 5.0))
+    mesh = [rng.randint(2, 4)] * 3
+    ph.run_mesh(mesh, is_mesh_symmetry=True, is_gamma_center=rng.random() < 0.5)
+    doses = []
+    for openmp in (True, False):
+        td = TotalDos(ph.mesh, use_tetrahedron_method=True)
+        td._openmp_thm = openmp
+        td.set_draw_area(freq_pitch=(td.frequency_points[-1] - td.frequency_points[0]) / 40)
+        td.run()
+        doses.append(np.array(td.dos))
+    run.count("oracle-dos-kernel-vs-tetrahedron-mesh", section="oracle")
+    if np.abs(doses[0] - doses[1]).max() > 1e-9 * max(1.0, np.abs(doses[0]).max()):
+        run.violation("TotalDos.run", "kernel-ne-tetrahedron-mesh", "compiled tetrahedron DOS and TetrahedronMesh loop differ by %.3g on a symmetry-reduced mesh"
+                      % np.abs(doses[0] - doses[1]).max(), dict(cell=name, mesh=mesh))
+
+
+def _grid_order(run, rng, thorough, lines, meta):
+    """The tetrahedron DOS at a frequency must not depend on which other frequencies are requested, nor on their order:
+    ascending grid, the same grid reversed, a shuffled grid, a sub-grid; compiled driver vs the TetrahedronMesh route;
+    descending grids through the public API (freq_min > freq_max with a negative pitch)."""
+    from phonopy.phonon.dos import TotalDos, run_tetrahedron_method_dos
+    from phonopy.structure.tetrahedron_method import TetrahedronMethod
+
+    for it in range(4 if thorough else 2):
+        name = ["cscl", "nacl_prim", "hcp", "bct"][it % 4] if thorough else rng.choice(["cscl", "nacl_prim", "hcp"])
+        cell, cen = gen.make_cell(name)
+        ph = gen.make_phonopy(cell, np.diag([2, 2, 2]), pmat="P")
+        ph.force_constants = gen.pair_fc(ph.supercell, min(0.9 * gen.min_lattice_vector(ph.supercell.cell), 5.0))
+        mesh = [rng.randint(2, 4)] * 3 if rng.random() < 0.6 else [rng.randint(2, 4) for _ in range(3)]
+        sym = it % 2 == 0
+        ph.run_mesh(mesh, with_eigenvectors=not sym, is_mesh_symmetry=sym)
+        m = ph.mesh
+        fr = np.array(m.frequencies)
+        fmin, fmax = float(fr.min()), float(fr.max())
+        nfp = 41
+        asc = np.linspace(fmin - 0.3, fmax + 0.3, nfp)
+        perm = list(range(nfp))
+        rng.shuffle(perm)
+        sub = sorted(rng.sample(range(nfp), 9))
+        grids = {"ascending": np.arange(nfp), "reversed": np.arange(nfp)[::-1], "shuffled": np.array(perm), "subset": np.array(sub),
+                 "subset-reversed": np.array(sub[::-1])}
+        tm = TetrahedronMethod(np.linalg.inv(ph.primitive.cell), mesh=mesh)
+        info = dict(cell=name, mesh=mesh, is_mesh_symmetry=sym, force_constants="gen.pair_fc, 2x2x2")
+        coefs = [None] if sym else [None, np.abs(np.array(m.eigenvectors)) ** 2]
+        for coef in coefs:
+            ref = None
+            for gname, idx in grids.items():
+                fp = np.array(asc[idx], dtype="double")
+                d = np.array(run_tetrahedron_method_dos(m.mesh_numbers, fp, fr, m.grid_address, m.grid_mapping_table, tm.tetrahedra, coef=coef))
+                full = np.full((nfp,) + d.shape[1:], np.nan)
+                full[idx] = d
+                if ref is None:
+                    ref = full
+                    continue
+                sel = ~np.isnan(full).reshape(nfp, -1)[:, 0]
+                err = float(np.abs(full[sel] - ref[sel]).max())
+                run.count("oracle-dos-grid-order", section="oracle")
+                if err > 1e-10 * max(1.0, float(np.abs(ref).max())):
+                    run.violation("run_tetrahedron_method_dos", "dos-depends-on-frequency-grid-order" + ("" if coef is None else "-projected"),
+                                  "tetrahedron DOS at the same frequencies differs by %.3g between the ascending grid and the %s grid" % (err, gname),
+                                  dict(info, grid=gname, frequency_points=fp.tolist()))
+            # the compiled driver vs the TetrahedronMesh loop on the reversed grid (total DOS)
+            if coef is None:
+                td = TotalDos(m, use_tetrahedron_method=True)
+                td._openmp_thm = False
+                td._frequency_points = np.array(asc[::-1], dtype="double")
+                td.run()
+                err = float(np.abs(np.array(td.dos)[::-1] - ref).max())
+                run.count("oracle-dos-grid-order-python-route", section="oracle")
+                if err > 1e-9 * max(1.0, float(np.abs(ref).max())):
+                    run.violation("TotalDos.run", "kernel-ne-tetrahedron-mesh-descending-grid",
+                                  "compiled DOS on the ascending grid and TetrahedronMesh loop on the descending grid differ by %.3g" % err, info)
+        # through the public API: descending grid (freq_min > freq_max, negative pitch) vs ascending grid
+        pitch = (fmax - fmin + 0.6) / 32
+        ph.run_total_dos(freq_min=fmin - 0.3, freq_max=fmax + 0.3, freq_pitch=pitch, use_tetrahedron_method=True)
+        da = ph.get_total_dos_dict()
+        ph.run_total_dos(freq_min=float(da["frequency_points"][-1]), freq_max=float(da["frequency_points"][0]), freq_pitch=-pitch, use_tetrahedron_method=True)
+        dd = ph.get_total_dos_dict()
+        fa, fd = np.array(da["frequency_points"]), np.array(dd["frequency_points"])
+        lines.append("fpts %s %s none %s %s %s" % (q(fmin), q(fmax), q(float(da["frequency_points"][-1])), q(float(da["frequency_points"][0])), q(float(-pitch))))
+        meta.append(("fpts", dict(info, freq_min=float(fa[-1]), freq_max=float(fa[0]), freq_pitch=-pitch, descending=True), fd))
+        n = min(len(fa), len(fd))
+        run.count("oracle-dos-descending-api", section="oracle")
+        run.case(("grid-order", name, tuple(mesh), sym), nontrivial=True)
+        if len(fd) < len(fa) - 1 or np.abs(fd[:n] - fa[::-1][:n]).max() > 1e-9:
+            run.violation("Phonopy.run_total_dos", "descending-grid-points", "freq_min > freq_max with a negative pitch does not give the reversed grid", info)
+        elif np.abs(np.array(dd["total_dos"])[:n] - np.array(da["total_dos"])[::-1][:n]).max() > 1e-9 * max(1.0, float(np.abs(da["total_dos"]).max())):
+            run.violation("Phonopy.run_total_dos", "dos-depends-on-frequency-grid-order",
+                          "total DOS on the descending grid (freq_min > freq_max, negative pitch) differs from the ascending grid by %.3g"
+                          % np.abs(np.array(dd["total_dos"])[:n] - np.array(da["total_dos"])[::-1][:n]).max(), dict(info, freq_pitch=-pitch))
+
+
 def _end_to_end(run, rng, thorough):
     names = ["cscl", "nacl_prim", "zincblende_prim", "hcp", "bct", "rhombo", "mono_P"]
-    n = 10 if thorough else 2
+    n = 30 if thorough else 2
     for _ in range(n):
         name = rng.choice(names)
         cell, cen = gen.make_cell(name)
@@ -479,6 +718,22 @@ def _end_to_end(run, rng, thorough):
             px = np.array(ph.get_projected_dos_dict()["projected_dos"])
             if px.shape[0] != nb or np.abs(px.sum(axis=0) - tot).max() > 1e-9 * max(1.0, np.abs(tot).max()):
                 run.violation("Phonopy.run_projected_dos", "xyz-pdos-sum-ne-total-" + method, "sum over 3N Cartesian projections differs from the total DOS", info)
+            # direction projections (given along the basis vectors, converted to Cartesian by the API): each is bounded
+            # by the atom projection (pdos_direction_le_atom), and an orthonormal Cartesian triple adds up to it
+            invc = np.linalg.inv(np.array(ph.primitive.cell))
+            qmat, _ = np.linalg.qr(np.array([[rng.uniform(-1, 1) for _ in range(3)] for _ in range(3)]))
+            acc = np.zeros_like(pdos)
+            for dcart in qmat.T:
+                ph.run_projected_dos(freq_min=fmin - 1.0, freq_max=fmax + 1.0, freq_pitch=pitch, direction=dcart @ invc, **kw)
+                pdir = np.array(ph.get_projected_dos_dict()["projected_dos"])
+                acc += pdir
+                if (pdir > pdos + 1e-9 * max(1.0, np.abs(pdos).max())).any() or (pdir < -1e-10).any():
+                    run.violation("Phonopy.run_projected_dos", "direction-pdos-exceeds-atom-pdos-" + method,
+                                  "direction-projected DOS outside [0, atom-projected DOS]", dict(info, direction_cartesian=dcart.tolist()))
+            if np.abs(acc - pdos).max() > 1e-8 * max(1.0, np.abs(pdos).max()):
+                run.violation("Phonopy.run_projected_dos", "direction-pdos-triple-ne-atom-pdos-" + method,
+                              "projections on an orthonormal triple of directions do not add up to the atom-projected DOS (%.3g)" % np.abs(acc - pdos).max(), info)
+            run.count("oracle-direction-projection-%s" % method, section="oracle")
             integ = float(np.sum((tot[1:] + tot[:-1]) / 2 * np.diff(np.array(td["frequency_points"]))))
             # (a flat tetrahedron is a delta peak the density misses: for the tetrahedron method the normalisation is the
             #  statement about the cumulative weights checked below, the quadrature check applies to smearing only)
